@@ -155,6 +155,14 @@ func genItem(r *Rng, o ValOpts) Item {
 		}
 		it = append(it, KV{[]byte(a.Name), genOfType(r, t, 0, o)})
 	}
+	// attributes that are literally named like the placeholders the printer allocates: an attribute
+	// keeps its own name, a placeholder only stands for a name inside the expression
+	if r.Chance(12) {
+		it = append(it, KV{[]byte("#n0"), genOfType(r, pick(r, []string{"S", "N"}), 0, o)})
+	}
+	if r.Chance(8) {
+		it = append(it, KV{[]byte("#n1"), genOfType(r, pick(r, []string{"S", "N", "L"}), 0, o)})
+	}
 	return it
 }
 
